@@ -1,16 +1,24 @@
 /-
-  C07 — nothing structurally invalid is exported.  Property theorems only.
+  C07 — nothing structurally invalid is exported.  Property theorems only (lemmas live in
+  Torf.Lemmas.{ValidateBase,ValidateCommon,ValidateSingle,ValidateFile,ValidateMulti,ValidateTop,
+  SoundBridge,SoundIter,SoundFacts,SoundMain,SerOk,ExportSound,Export}).
 
-  Status (see notes/C07.md): the error-kind theorems for the conversion half and for the exports
-  relative to `validate`, the readiness iff and the D07f counterexample are proved here.  The two
-  statements that need an induction over the whole `assert_type` sequence —
-  `C07_validate_no_internal_statement` and `C07_export_sound_statement` — are kept as `def … : Prop`
-  (NOT proved); the driver evaluates both on every case of every run (a failure is exit 2).
+  * `C07_export_sound`                    validate = ok → dump = ok bs → Sound bs   (every metainfo)
+  * `C07_validate_only_metainfo_error`    validate raises MetainfoError and nothing else outside the
+                                          classes of the open findings D07f / D07j
+  * `C07_only_metainfo_error_{dump,infohash,magnet}_{full,partial,counterexample}`
+  * `C07_ready_iff`, `C07_ready_false_iff`, `C07_convert_only_metainfo_error`,
+    `C07_{dump,infohash}_error_from_validate`, `C07_magnet_error_from_infohash`
+
+  Metainfo = the item list of `Torrent._metainfo` (a Python dict: `Codec.wf`, pairwise distinct
+  keys, is its representation invariant).  Cyclic containers are outside `PyVal`
+  (their exports raise MetainfoError since /repo 19d011f; checked on the implementation).
 -/
-import Torf.Lemmas.Export
-import Torf.Spec.Sound
+import Torf.Lemmas.ExportSound
 namespace Torf.C07
 open Torf Torf.Export Torf.Validate
+
+/-! ### readiness -/
 
 /-- `is_ready` is true exactly when an explicit validation call would succeed. -/
 theorem C07_ready_iff (urlOk : Bytes → Bool) (fs : FsOracle) (md : Items) :
@@ -29,6 +37,66 @@ theorem C07_ready_false_iff (urlOk : Bytes → Bool) (fs : FsOracle) (md : Items
   | ok u => simp [pure, Except.pure]
   | error e => cases e <;> simp [pure, Except.pure, throw, throwThe, MonadExceptOf.throw]
 
+/-! ### what is exported is sound -/
+
+/-- **Nothing structurally invalid is exported.**  For every metainfo (a Python dict, i.e. with
+    pairwise distinct keys at every level), every URL oracle and every state of the file system:
+    if `validate()` succeeds and `dump()` returns bytes, the strict parse of those bytes is an
+    info dictionary with a name, a positive piece length that is a multiple of 16 KiB, a non-empty
+    piece string of exactly 20·⌈size / piece length⌉ bytes, exactly one of a single-file length or
+    a file list whose entries have non-negative integer lengths and string path components, and
+    only well-formed announce URLs (`Sound.Sound`). -/
+theorem C07_export_sound (urlOk : Bytes → Bool) (fs : FsOracle) (md : Items) (bs : Bytes)
+    (hwf : Codec.wf (.dict md) = true)
+    (hv : validate urlOk fs md = .ok ()) (hd : dump urlOk fs md = .ok bs) :
+    Sound.Sound urlOk bs = true :=
+  export_sound urlOk fs hwf hv hd
+
+/-- non-vacuity of `C07_export_sound`: a valid single-file metainfo -/
+def baseInfo : Items :=
+  [(.str "name", .str "a"), (.str "piece length", .int 16384),
+   (.str "pieces", .bytes (List.replicate 20 120)), (.str "length", .int 5)]
+
+def validWitness : Items := [(.str "info", .dict baseInfo)]
+
+/-- non-vacuity of `C07_export_sound`: a valid multi-file metainfo with trackers -/
+def multiWitness : Items :=
+  [(.str "announce", .str "http://a/b"),
+   (.str "announce-list", .list [.list [.str "http://a/b"], .tuple []]),
+   (.str "info", .dict [(.str "name", .bytes [255]), (.str "piece length", .int 32768),
+     (.str "pieces", .bytes (List.replicate 40 120)),
+     (.str "files", .list [.dict [(.str "length", .int 32768), (.str "path", .list [.str "a"])],
+                           .dict [(.str "length", .float (.fin 1 true false)),
+                                  (.str "path", .tuple [.bytes [98], .str "c"])]])])]
+
+example : ∃ bs, validate (fun _ => false) noPath validWitness = .ok () ∧
+    dump (fun _ => false) noPath validWitness = .ok bs ∧ Sound.Sound (fun _ => false) bs = true :=
+  witness_dumps _ validWitness (by decide +kernel) (by decide +kernel) (by decide +kernel)
+
+example : ∃ bs, validate (fun _ => true) noPath multiWitness = .ok () ∧
+    dump (fun _ => true) noPath multiWitness = .ok bs ∧ Sound.Sound (fun _ => true) bs = true :=
+  witness_dumps _ multiWitness (by decide +kernel) (by decide +kernel) (by decide +kernel)
+
+/-! ### only MetainfoError -/
+
+/-- **`validate()` raises MetainfoError and nothing else** outside the classes of the open findings
+    D07f (`info['files']` is a mapping; a content path is set and a `path` is not a non-empty
+    sequence of `str`) and D07j (the numbers in the metainfo add up to more than 4300 digits, so
+    an error message can hit the int→str limit) — the explicit decidable predicate
+    `outsideD07fD07j`, which the driver evaluates as `hypThm`. -/
+theorem C07_validate_only_metainfo_error (urlOk : Bytes → Bool) (fs : FsOracle) (md : Items)
+    (ho : outsideD07fD07j fs md = true) :
+    validate urlOk fs md = .ok () ∨ validate urlOk fs md = .error .metainfo := by
+  obtain ⟨h1, h2, h3⟩ := outside_spec fs ho
+  cases h : validate urlOk fs md with
+  | ok u => exact .inl rfl
+  | error e => exact .inr (by rw [validate_err urlOk fs h1 h2 h3 h])
+
+/-- non-vacuity: the valid witnesses and a metainfo that fails validation are inside the predicate -/
+example : outsideD07fD07j noPath validWitness = true ∧ outsideD07fD07j noPath multiWitness = true ∧
+    outsideD07fD07j { hasPath := true, rootIsFile := true, rootSize := 5 } validWitness = true ∧
+    outsideD07fD07j noPath [(.str "info", .list [.int 1])] = true := by decide +kernel
+
 /-- The conversion half (`convert()` + `bencode.encode`, i.e. `dump(validate=False)`) raises the
     metainfo error and nothing else — for every metainfo: non-str keys at any depth, None, NaN,
     ±inf, integers beyond the int→str limit, unrepresentable datetimes, objects of unknown type. -/
@@ -37,38 +105,36 @@ theorem C07_convert_only_metainfo_error (md : Items) (e : ErrKind)
   convertSer_err _ e h
 
 /-- `dump()` (hence `write_stream()`/`write()` before they touch the target) raises either what
-    `validate()` raised or the metainfo error. -/
-theorem C07_only_metainfo_error_dump (urlOk : Bytes → Bool) (fs : FsOracle) (md : Items) (e : ErrKind)
+    `validate()` raised or the metainfo error — for every metainfo. -/
+theorem C07_dump_error_from_validate (urlOk : Bytes → Bool) (fs : FsOracle) (md : Items) (e : ErrKind)
     (h : dump urlOk fs md = .error e) : e = .metainfo ∨ validate urlOk fs md = .error e := by
   unfold dump at h
   rcases bind_err h with h1 | ⟨_, _, h2⟩
   · exact .inr h1
   · exact .inl (C07_convert_only_metainfo_error md e h2)
 
-/-- `infohash` raises either what `validate()` raised or the metainfo error. -/
-theorem C07_only_metainfo_error_infohash (urlOk : Bytes → Bool) (fs : FsOracle) (md : Items) (e : ErrKind)
-    (h : infoBytes urlOk fs md = .error e) (hinfo : ∃ kvs, getE (.dict (ensureInfo md)) (.s "info") = .ok (.dict kvs)) :
+/-- `infohash` raises either what `validate()` raised or the metainfo error — for every metainfo. -/
+theorem C07_infohash_error_from_validate (urlOk : Bytes → Bool) (fs : FsOracle) (md : Items)
+    (e : ErrKind) (h : infoBytes urlOk fs md = .error e) :
     e = .metainfo ∨ validate urlOk fs md = .error e := by
   unfold infoBytes at h
-  rcases bind_err h with h1 | ⟨_, _, h2⟩
+  rcases bind_err h with h1 | ⟨u, hv, h2⟩
   · exact .inr h1
-  · obtain ⟨kvs, hk⟩ := hinfo
-    rw [hk] at h2
-    exact .inl (convertSer_err kvs e (by simpa [bind, Except.bind] using h2))
+  · cases u
+    obtain ⟨vf, hen⟩ := validate_ok urlOk fs hv
+    obtain ⟨info, _, cf, _⟩ := vf.ex
+    rw [hen, getE_ok (getItem_dict_s_some cf.hinfo)] at h2
+    simp only [bind, Except.bind] at h2
+    exact .inl (convertSer_err info e h2)
 
 /-- `magnet()` within the modelled shape of announce-list/url-list raises what `infohash` raises. -/
-theorem C07_only_metainfo_error_magnet (urlOk : Bytes → Bool) (fs : FsOracle) (md : Items) (e : ErrKind)
-    (h : magnet urlOk fs md = .error e) (hm : magnetTailOk urlOk md = true) :
+theorem C07_magnet_error_from_infohash (urlOk : Bytes → Bool) (fs : FsOracle) (md : Items)
+    (e : ErrKind) (h : magnet urlOk fs md = .error e) (hm : magnetTailOk urlOk md = true) :
     infoBytes urlOk fs md = .error e := by
   unfold magnet at h
   rcases bind_err h with h1 | ⟨_, _, h2⟩
   · exact h1
   · simp [hm, pure, Except.pure] at h2
-
-/-- Full strength: every export of every metainfo fails with the metainfo error only. -/
-def C07_only_metainfo_error_full : Prop :=
-  ∀ (urlOk : Bytes → Bool) (fs : FsOracle) (md : Items) (e : ErrKind),
-    dump urlOk fs md = .error e → e = .metainfo
 
 /-- D07f witness: `info['files'] = {0: {'length': 5, 'path': ['a']}}` -/
 def d07fWitness : Items :=
@@ -76,39 +142,113 @@ def d07fWitness : Items :=
      (.str "pieces", .bytes (List.replicate 20 120)),
      (.str "files", .dict [(.int 0, .dict [(.str "length", .int 5), (.str "path", .list [.str "a"])])])])]
 
+/-- D07j witness: `announce = 10**4300` (an `int`, so the rule fails; its `repr` raises) -/
+def d07jWitness : Items := validWitness ++ [(.str "announce", .int (10 ^ 4300))]
+
+/-- D07i witness: `url-list = ['nope']` (never validated; the `webseeds` getter raises URLError) -/
+def d07iWitness : Items := validWitness ++ [(.str "url-list", .list [.str "nope"])]
+
+/-- both exclusions of `C07_validate_only_metainfo_error` are necessary: on the witnesses of D07f
+    and D07j `validate` raises something else -/
+theorem C07_validate_only_metainfo_error_counterexample :
+    isInternal (validate (fun _ => false) noPath d07fWitness) = true ∧
+    isInternal (validate (fun _ => false) noPath d07jWitness) = true := by decide +kernel
+
+/-! #### dump -/
+
+/-- Full strength: `dump()` of every metainfo fails with the metainfo error only. -/
+def C07_only_metainfo_error_dump_full : Prop :=
+  ∀ (urlOk : Bytes → Bool) (fs : FsOracle) (md : Items) (e : ErrKind),
+    dump urlOk fs md = .error e → e = .metainfo
+
+/-- Proved part: outside the classes of D07f / D07j `dump()` (hence `write()`/`write_stream()`,
+    C17) raises MetainfoError and nothing else. -/
+theorem C07_only_metainfo_error_dump_partial (urlOk : Bytes → Bool) (fs : FsOracle) (md : Items)
+    (e : ErrKind) (ho : outsideD07fD07j fs md = true) (h : dump urlOk fs md = .error e) :
+    e = .metainfo :=
+  dump_err urlOk fs ho h
+
 /-- The current code falsifies the full statement (finding D07f): a mapping as `files` makes
     `validate` subscript an `int` ⇒ TypeError. -/
-theorem C07_only_metainfo_error_counterexample : ¬ C07_only_metainfo_error_full := by
+theorem C07_only_metainfo_error_dump_counterexample : ¬ C07_only_metainfo_error_dump_full := by
   intro h
-  cases hd : dump (fun _ => false) noPath d07fWitness with
-  | ok bs =>
-    have : (dump (fun _ => false) noPath d07fWitness).toBool = false := by decide
-    simp [hd, Except.toBool] at this
-  | error e =>
-    have he := h _ _ _ _ hd
-    subst he
-    have : (match dump (fun _ => false) noPath d07fWitness with
-            | .error .metainfo => true | _ => false) = false := by decide
-    simp [hd] at this
+  obtain ⟨e, he, hne⟩ := not_metainfo_of_internal
+    (show isInternal (dump (fun _ => false) noPath d07fWitness) = true by decide +kernel)
+  exact hne (h _ _ _ _ he)
 
-/-- NOT PROVED (evaluated by the driver on every case, `hypThm`): under the hypothesis that
-    excludes D07f, `validate` never raises anything but the metainfo error. -/
-def C07_validate_no_internal_statement : Prop :=
+/-! #### infohash -/
+
+def C07_only_metainfo_error_infohash_full : Prop :=
   ∀ (urlOk : Bytes → Bool) (fs : FsOracle) (md : Items) (e : ErrKind),
-    filesNotMapping md = true → (fs.hasPath = false ∨ pathsJoinable md = true) →
-    validate urlOk fs md = .error e → e = .metainfo
+    infoBytes urlOk fs md = .error e → e = .metainfo
 
-/-- NOT PROVED (evaluated by the driver on every case, `modelSound`): what `dump` returns after a
-    successful `validate` is structurally sound. -/
-def C07_export_sound_statement : Prop :=
-  ∀ (urlOk : Bytes → Bool) (fs : FsOracle) (md : Items) (bs : Bytes),
-    validate urlOk fs md = .ok () → dump urlOk fs md = .ok bs → Sound.Sound urlOk bs = true
+/-- Proved part: outside the classes of D07f / D07j `infohash` raises MetainfoError and nothing
+    else. -/
+theorem C07_only_metainfo_error_infohash_partial (urlOk : Bytes → Bool) (fs : FsOracle) (md : Items)
+    (e : ErrKind) (ho : outsideD07fD07j fs md = true) (h : infoBytes urlOk fs md = .error e) :
+    e = .metainfo :=
+  infoBytes_err urlOk fs ho h
 
-/-- non-vacuity: a valid single-file metainfo validates, dumps, and the bytes are Sound -/
-def validWitness : Items :=
-  [(.str "info", .dict [(.str "name", .str "a"), (.str "piece length", .int 16384),
-     (.str "pieces", .bytes (List.replicate 20 120)), (.str "length", .int 5)])]
+/-- finding D07j falsifies the full statement: `announce = 10**4300` ⇒ ValueError -/
+theorem C07_only_metainfo_error_infohash_counterexample :
+    ¬ C07_only_metainfo_error_infohash_full := by
+  intro h
+  obtain ⟨e, he, hne⟩ := not_metainfo_of_internal
+    (show isInternal (infoBytes (fun _ => false) noPath d07jWitness) = true by decide +kernel)
+  exact hne (h _ _ _ _ he)
 
-example : (validate (fun _ => false) noPath validWitness).toBool = true := by decide
+/-! #### magnet -/
+
+def C07_only_metainfo_error_magnet_full : Prop :=
+  ∀ (urlOk : Bytes → Bool) (fs : FsOracle) (md : Items) (e : ErrKind),
+    magnet urlOk fs md = .error e → e = .metainfo
+
+/-- Proved part: outside the classes of D07f / D07j and of D07i (`magnetTailOk`: `announce-list`
+    is a list of lists of URLs and `url-list` a URL or a list of URLs, so the `trackers` /
+    `webseeds` getters accept them) `magnet()` raises MetainfoError and nothing else. -/
+theorem C07_only_metainfo_error_magnet_partial (urlOk : Bytes → Bool) (fs : FsOracle) (md : Items)
+    (e : ErrKind) (ho : outsideD07fD07j fs md = true) (hm : magnetTailOk urlOk md = true)
+    (h : magnet urlOk fs md = .error e) : e = .metainfo :=
+  magnet_err urlOk fs ho hm h
+
+/-- on the D07i witness `magnet()` raises something else than MetainfoError although the
+    metainfo is outside D07f / D07j and `validate()` and `infohash` accept it -/
+theorem C07_magnet_d07i_witness : outsideD07fD07j noPath d07iWitness = true ∧
+    validate (fun _ => false) noPath d07iWitness = .ok () ∧
+    isInternal (magnet (fun _ => false) noPath d07iWitness) = true := by
+  have hv := isOk_unit (show isOk (validate (fun _ => false) noPath d07iWitness) = true by
+    decide +kernel)
+  refine ⟨by decide +kernel, hv, ?_⟩
+  have hs : (match Codec.encodeValue (.dict baseInfo) with
+      | .ok u => Bencode.smallS 4299 u | .error _ => false) = true := by decide +kernel
+  cases he : Codec.encodeValue (.dict baseInfo) with
+  | error e => rw [he] at hs; exact absurd hs (by simp)
+  | ok u =>
+    rw [he] at hs
+    have hib := infoBytes_ok_of (fun _ => false) noPath hv
+      (show PyVal.lookupStr "info" d07iWitness = some (.dict baseInfo) by
+        simp [d07iWitness, validWitness, PyVal.lookupStr])
+      he (Bencode.serOk_of_smallS u hs)
+    have ht : magnetTailOk (fun _ => false) d07iWitness = false := by decide +kernel
+    unfold magnet
+    rw [hib]
+    simp [bind, Except.bind, ht, isInternal, throw, throwThe, MonadExceptOf.throw]
+
+/-- finding D07i falsifies the full statement: `url-list = ['nope']` ⇒ URLError from the
+    `webseeds` getter -/
+theorem C07_only_metainfo_error_magnet_counterexample :
+    ¬ C07_only_metainfo_error_magnet_full := by
+  intro h
+  obtain ⟨e, he, hne⟩ := not_metainfo_of_internal C07_magnet_d07i_witness.2.2
+  exact hne (h _ _ _ _ he)
+
+/-- non-vacuity of the partial statements: metainfo inside the predicates whose exports fail
+    (with MetainfoError), and one whose exports succeed -/
+example : outsideD07fD07j noPath [(.str "info", .list [.int 1])] = true ∧
+    magnetTailOk (fun _ => false) [(.str "info", .list [.int 1])] = true ∧
+    isOk (dump (fun _ => false) noPath [(.str "info", .list [.int 1])]) = false ∧
+    isOk (infoBytes (fun _ => false) noPath [(.str "info", .list [.int 1])]) = false ∧
+    isOk (magnet (fun _ => false) noPath [(.str "info", .list [.int 1])]) = false ∧
+    magnetTailOk (fun _ => true) multiWitness = true := by decide +kernel
 
 end Torf.C07
